@@ -271,6 +271,10 @@ func (x *Ctx) call(r *Result, f func()) {
 				r.Budget = true
 				r.HasPanic = true
 				r.Panic = "step budget exceeded"
+			case Deadlocked:
+				r.Deadlock = true
+				r.HasPanic = true
+				r.Panic = "deadlock: " + v.Why
 			case harnessPanic:
 				panic(v)
 			case runtime.Error:
